@@ -26,6 +26,7 @@ EXPLANATION = (
     "validators run by the receive callbacks are total (index and conversion safety, shared with C01.R4), so that no exception other "
     "than the two documented ones leaves a callback after it cancelled the timer. Timing and exact counts under fault scripts are not decided."
     ' (R7) a callback stores _retry = 0 only on paths on which it also completes the request (result / exception set, future found done or absent): a reset followed by a cancellation would re-enter the retry branch with a fresh budget.'
+    ' A call that names a package class or function directly without its required arguments (call arity) is a TypeError source in the exception summaries the callback rules use.'
 )
 
 
